@@ -127,6 +127,8 @@ class RecordingRLock:
                 pass
             if attr == '?':
                 return f"{self._creator}.?"
+            # a lock attribute that was merely renamed keeps the name it has in the recorded tree (translate/renames.py)
+            attr = _recorded_name(attr)
             self._name = f"{self._creator}.{attr}"
         return self._name
 
@@ -176,6 +178,20 @@ _CUR = {'rec': None, 'installed': False}
 
 def _factory():
     return RecordingRLock(_CUR['rec'], sys._getframe(1))
+
+
+_RENAMED = {}
+
+
+def _recorded_name(attr):
+    if not _RENAMED.get('loaded'):
+        _RENAMED['loaded'] = True
+        try:
+            from translate import renames
+            _RENAMED['inv'] = {new: old for old, new in renames.rename_map(REPO)[0].items()}
+        except Exception:   # noqa
+            _RENAMED['inv'] = {}
+    return _RENAMED['inv'].get(attr, attr)
 
 
 @contextmanager
